@@ -30,7 +30,9 @@ TimingsA == <<
   [cyc |-> 1, del |-> 0, rep |-> 3, rev |-> FALSE],  [cyc |-> 16, del |-> 5, rep |-> 0, rev |-> TRUE],
   [cyc |-> 5, del |-> 2, rep |-> -1, rev |-> FALSE], [cyc |-> 2, del |-> 1, rep |-> 2, rev |-> TRUE],
   [cyc |-> 4, del |-> 1, rep |-> -3, rev |-> FALSE], [cyc |-> 2, del |-> 0, rep |-> -3, rev |-> TRUE],
-  [cyc |-> 3, del |-> 0, rep |-> 16777217, rev |-> FALSE], [cyc |-> 5, del |-> 2, rep |-> 33554431, rev |-> TRUE] >>
+  [cyc |-> 3, del |-> 0, rep |-> 16777217, rev |-> FALSE], [cyc |-> 5, del |-> 2, rep |-> 33554431, rev |-> TRUE],
+  \* cycles c with fl(c * fl(1/c)) < 1 in f32 (a quotient taken through a reciprocal misses the cycle boundary)
+  [cyc |-> 41, del |-> 0, rep |-> 1, rev |-> FALSE], [cyc |-> 47, del |-> 2, rep |-> -2, rev |-> FALSE] >>
 EasesA == <<1, 2, 3, 11, 14, 19, 37>>      \* Lin, Sq, OutSq and some built-ins (ids = harness table)
 
 \* distinct per insertion index and property; alternating sign so that scaled replays reach across zero
